@@ -90,13 +90,34 @@ fn read_with_04(bytes: &[u8], model: &Model, probes: &[Vec<u8>]) -> Result<(), S
     }
 }
 
+/// The interval the offset tables must follow: the configured one, or — when the configuration
+/// leaves the default — whatever single interval the file itself uses consistently (the default is
+/// an implementation choice, not part of the format): it is inferred from the first block with two
+/// slots and then enforced on every block.
+fn interval_of(cfg: &FileCfg, bytes: &[u8]) -> Result<Option<usize>, String> {
+    if let Some(i) = cfg.interval {
+        return Ok(Some(i));
+    }
+    let (_, blocks) = vlib::fmt::walk_blocks(bytes)?;
+    for b in &blocks {
+        if b.table.len() >= 2 {
+            return match b.entry_offsets.iter().position(|o| *o as u64 == b.table[1]) {
+                Some(i) if i >= 1 => Ok(Some(i)),
+                _ => Err(format!("block at {}: second offset slot is not an entry start", b.offset)),
+            };
+        }
+    }
+    Ok(None)
+}
+
 /// All C09 obligations for one file. Err((kind, message)).
 pub fn conformance(spec: &FileSpec) -> Result<(usize, bool), (String, String)> {
     let entries = spec.entries.build();
     let cfg = &spec.cfg;
     let bytes = write_file(cfg, &entries).map_err(|e| ("write".to_string(), e))?;
     // oracle 1: independent decoder
-    let layout = decode_file(&bytes, Some(cfg.effective_interval())).map_err(|e| ("format".to_string(), e))?;
+    let iv = interval_of(cfg, &bytes).map_err(|e| ("format".to_string(), e))?;
+    let layout = decode_file(&bytes, iv).map_err(|e| ("format".to_string(), e))?;
     let t = &layout.trailer;
     if t.version != 2 || t.codec != cfg.codec || t.levels != cfg.index_levels {
         return Err(("trailer".into(), format!("trailer {t:?} does not match the configuration {cfg:?}")));
@@ -114,7 +135,7 @@ pub fn conformance(spec: &FileSpec) -> Result<(usize, bool), (String, String)> {
     if cfg.index_levels != 255 {
         let old = write_04(cfg, &model.entries).map_err(|e| ("0.4.7-writer".to_string(), format!("the frozen writer failed: {e}")))?;
         same_bytes = old == bytes;
-        let lo = decode_file(&old, Some(cfg.effective_interval()))
+        let lo = decode_file(&old, interval_of(cfg, &old).map_err(|e| ("0.4.7-bytes-format".to_string(), e))?)
             .map_err(|e| ("0.4.7-bytes-format".to_string(), format!("independent decoder on 0.4.7 bytes: {e}")))?;
         if lo.entries != model.entries {
             return Err(("0.4.7-bytes-format".into(), "independent decoder recovers different entries from 0.4.7 bytes".into()));
